@@ -1,6 +1,12 @@
-(* C11 open findings: the faithful model of the implementation (Model.v agrees with the real code
-   on these inputs in every run) violates the property statement for in-sample steps whose moving
-   window is cut by the start of the series.  Witnesses by computation. *)
+(* C11, historical witnesses (no open finding is expressed here any more).  `old_kernel` is the
+   kernel the code had BEFORE the fixes 73893fc (seasonal mean), ea15ad0 (drift) and fe97d94
+   (seasonal last): padding, reshape and slope sized by the resolved `window_length_` instead of
+   the window actually available, no front padding for the seasonal last value.  On in-sample
+   steps whose moving window is cut by the start of the series it violates the conclusions of
+   C11_in_sample_mean / C11_in_sample_drift / C11_in_sample_last, which the current model
+   satisfies (Props.v) - so those theorems do tell the two behaviours apart.  If a revert of one
+   of the fixes came back, the correspondence run would disagree with Model.v on such inputs and
+   the Python oracle would flag them (`insample-short-window-*`). *)
 From Coq Require Import ZArith QArith List Bool Lia.
 Require Import SkV.Lib.Base SkV.Lib.ZRange SkV.C11.Model SkV.C11.Proofs.
 Import ListNotations.
@@ -8,34 +14,71 @@ Open Scope Z_scope.
 
 Definition q (z : Z) : oq := Some (inject_Z z).
 
-(* F-C11-2: drift, training series 1 2 4 8, window_length_ = 4 (default = len(y)).  The in-sample
-   forecast for position 2 is made from the observations 1 2 (positions 0, 1): the line through
-   the window's end points gives 3, the implementation returns 2 + (2-1)/(4-1) = 7/3. *)
-Lemma drift_short_window_refuted :
-  exists ys wl r v, r <= 0 /\ naive_predict_wl SDrift 1 wl ys [r] = Ok [Some v] /\
+Definition old_kernel (s : strategy) (sp wl : Z) (w : list oq) (hs : list Z) : res (list oq) :=
+  if (zlen w =? 0) || all_nan w then Ok (const_all None hs)
+  else match s with
+  | SLast =>
+      if sp =? 1 then Ok (const_all (last w None) hs) else steps_vals w sp hs
+  | SMean =>
+      if sp =? 1 then Ok (const_all (nanmean w) hs)
+      else
+        let rem := wl mod sp in
+        let pad := if 0 <? rem then sp - rem else 0 in
+        let padded := repeat (None : oq) (Z.to_nat pad) ++ w in
+        let rows := ceil_div wl sp in
+        if zlen padded =? rows * sp then
+          let table := chunks (Z.to_nat rows) (Z.to_nat sp) padded in
+          let ypred := map (fun j => nanmean (zcol j table)) (zrange 0 sp 1) in
+          steps_vals ypred sp hs
+        else Err
+  | SDrift =>
+      if wl =? 1 then Ok (const_all None hs)
+      else match hd None w, last w None with
+           | Some a, Some b =>
+               Ok (map (fun h => Some (b + inject_Z h * ((b - a) / inject_Z (wl - 1)))%Q) hs)
+           | _, _ => Err
+           end
+  end.
+
+(* the in-sample step r <= 0 as the old code served it *)
+Definition old_in_sample (s : strategy) (sp wl : Z) (ys : list oq) (r : Z) : res (list oq) :=
+  old_kernel s sp wl (window ys (zlen ys - 2 + r) wl) [1].
+
+(* former F-C11-2 (fixed by ea15ad0): drift, series 1 2 4 8, window_length_ = 4.  The forecast for
+   position 2 is made from the observations 1 2 (positions 0, 1): the line through them gives 3;
+   the old slope (2-1)/(4-1) gave 7/3, the current model gives 3. *)
+Lemma old_drift_short_window_refuted :
+  exists ys wl r v, r <= 0 /\ old_in_sample SDrift 1 wl ys r = Ok [Some v] /\
     window ys (zlen ys - 2 + r) wl = [q 1; q 2] /\
-    ~ (v == line 0 1 (inject_Z 1) (inject_Z 2) 2)%Q.
+    ~ (v == line 0 1 (inject_Z 1) (inject_Z 2) 2)%Q /\
+    exists v', naive_predict_wl SDrift 1 wl ys [r] = Ok [Some v'] /\
+               (v' == line 0 1 (inject_Z 1) (inject_Z 2) 2)%Q.
 Proof.
   exists [q 1; q 2; q 4; q 8], 4, (-1), (7 # 3)%Q. repeat split; try reflexivity; try lia.
-  vm_compute. discriminate.
+  - vm_compute. discriminate.
+  - exists (3 # 1)%Q. split; reflexivity.
 Qed.
 
-(* F-C11-1: seasonal mean, sp = 2, window_length_ = 4, series 1..6.  The in-sample forecast for
-   position 2 is made from the observations at positions 0, 1; position 0 is in the target's
-   season, so the textbook value is defined (1), the implementation raises (reshape). *)
-Lemma seasonal_mean_short_window_refuted :
-  exists ys sp wl r, r <= 0 /\ naive_predict_wl SMean sp wl ys [r] = Err /\
+(* former F-C11-1 (fixed by 73893fc): seasonal mean, sp = 2, window_length_ = 4, series 1..6.  The
+   forecast for position 2 is made from positions 0, 1; position 0 is in the target's season, so
+   the textbook value is 1; the old code raised (reshape of 2 values into 2 x 2), the current
+   model returns 1. *)
+Lemma old_seasonal_mean_short_window_refuted :
+  exists ys sp wl r, r <= 0 /\ old_in_sample SMean sp wl ys r = Err /\
     nanmean (sel (fun p => congb sp p (zlen ys - 1 + r)) 0 (window ys (zlen ys - 2 + r) wl))
-    = Some (inject_Z 1 / inject_Z 1)%Q.
+    = Some (inject_Z 1 / inject_Z 1)%Q /\
+    naive_predict_wl SMean sp wl ys [r] = Ok [Some (inject_Z 1 / inject_Z 1)%Q].
 Proof.
   exists [q 1; q 2; q 3; q 4; q 5; q 6], 2, 4, (-3). repeat split; try reflexivity; lia.
 Qed.
 
-(* F-C11-3: seasonal last, sp = 3, series 1 2 3 4.  No observation before position 1 is in
-   position 1's season, yet the in-sample forecast for position 1 is the first observation. *)
-Lemma seasonal_last_short_window_refuted :
-  exists ys sp r, r <= 0 /\ naive_predict_wl SLast sp sp ys [r] = Ok [q 1] /\
-    (forall p, 0 <= p < zlen ys - 1 + r -> congb sp p (zlen ys - 1 + r) = false).
+(* former F-C11-3 (fixed by fe97d94): seasonal last, sp = 3, series 1 2 3 4.  No observation before
+   position 1 is in position 1's season, yet the old code returned the first observation; the
+   current model returns NaN. *)
+Lemma old_seasonal_last_short_window_refuted :
+  exists ys sp r, r <= 0 /\ old_in_sample SLast sp sp ys r = Ok [q 1] /\
+    (forall p, 0 <= p < zlen ys - 1 + r -> congb sp p (zlen ys - 1 + r) = false) /\
+    naive_predict_wl SLast sp sp ys [r] = Ok [None].
 Proof.
   exists [q 1; q 2; q 3; q 4], 3, (-2). repeat split; try reflexivity; try lia.
   intros p Hp. assert (p = 0) by (cbn in Hp; lia). subst p. reflexivity.
